@@ -680,8 +680,125 @@ Theorem c21_nonvacuous :
   known_class w_schema (w_ok sA) (w_ok_vars sA) = 0%N /\
   known_class w_schema (w_ok sB) (w_ok_vars sB) = 0%N /\
   w_ok sA <> w_ok sB /\ w_ok_vars sA <> w_ok_vars sB /\
-  leaks (impl_doc w_nm w_fl w_schema (w_ok_vars sA) (w_ok sA)) = false /\
-  length (impl_doc w_nm w_fl w_schema (w_ok_vars sA) (w_ok sA)) = 231.
+  impl_doc w_nm w_fl w_schema (w_ok_vars sA) (w_ok sA) = impl_doc w_nm w_fl w_schema (w_ok_vars sB) (w_ok sB).
 Proof.
-  repeat split; try (vm_compute; reflexivity); intro H; discriminate H.
+  split; [vm_compute; reflexivity|]. split; [vm_compute; reflexivity|]. split; [vm_compute; reflexivity|].
+  split; [intro H; discriminate H|]. split; [intro H; discriminate H|]. vm_compute. reflexivity.
+Qed.
+
+(* ------------------- the known classes do not depend on the secrets either -- *)
+Lemma all2_existsb {A B} (f : A -> B -> bool) (g : A -> bool) (h : B -> bool) l1 : forall l2,
+    Forall (fun a => forall b, f a b = true -> g a = h b) l1 ->
+    all2 f l1 l2 = true -> existsb g l1 = existsb h l2.
+Proof.
+  induction l1 as [|a l1 IH]; intros [|b l2] HF H; simpl in H; try discriminate; [reflexivity|].
+  apply andb_true_iff in H as [H1 H2]. inversion HF as [|? ? Ha Hl]; subst.
+  simpl. f_equal; [apply Ha; exact H1 | apply IH; assumption].
+Qed.
+
+Section Invariance.
+  Variable S : schema.
+
+  Lemma simc_hs : forall a m b, simc S m a b = true -> hs S m a = hs S m b.
+  Proof.
+    induction a using value_ind'; intros m b' Hsim; rewrite simc_eq in Hsim; rewrite (hs_eq S m), (hs_eq S m b');
+      destruct (is_secret m); try reflexivity;
+      try (apply value_eqb_eq in Hsim; subst b'; reflexivity).
+    - destruct b'; try discriminate.
+      revert Hsim. apply all2_existsb. eapply Forall_impl; [|exact H]. intros x IH y Hxy. apply IH. exact Hxy.
+    - destruct b'; try discriminate.
+      revert Hsim. apply all2_existsb. eapply Forall_impl; [|exact H].
+      intros [k x] IH [k' y] Hxy. simpl in *.
+      apply andb_true_iff in Hxy as [Hk Hx]. apply name_eqb_eq in Hk. subst k'. apply IH. exact Hx.
+  Qed.
+
+  Lemma simc_leaky : forall a m b, simc S m a b = true -> leaky S m a = leaky S m b.
+  Proof.
+    induction a using value_ind'; intros m b' Hsim; rewrite simc_eq in Hsim;
+      rewrite (leaky_eq S m), (leaky_eq S m b');
+      destruct (is_secret m); try reflexivity;
+      try (apply value_eqb_eq in Hsim; subst b'; reflexivity).
+    - destruct b'; try discriminate.
+      revert Hsim. apply all2_existsb. apply Forall_forall. intros x _ y Hxy. apply simc_hs. exact Hxy.
+    - destruct b'; try discriminate.
+      revert Hsim. apply all2_existsb. eapply Forall_impl; [|exact H].
+      intros [k x] IH [k' y] Hxy. simpl in *.
+      apply andb_true_iff in Hxy as [Hk Hx]. apply name_eqb_eq in Hk. subst k'. apply IH. exact Hx.
+  Qed.
+
+  Lemma simv_resolve v1 v2 m a b :
+    simv S v1 v2 m a b = true -> simc S m (resolve v1 a) (resolve v2 b) = true.
+  Proof.
+    intros H. unfold resolve. rewrite (simv_closed S v1 v2 _ _ _ H).
+    destruct (closed v2 b); [apply simv_subst; exact H|].
+    rewrite simc_eq. destruct (is_secret m); reflexivity.
+  Qed.
+
+  Lemma sim_bad_sel v1 v2 cl : forall a lost p b,
+      sim_sel S v1 v2 p a b = true -> bad_sel S v1 cl lost p a = bad_sel S v2 cl lost p b.
+  Proof.
+    induction a using selection_ind'; intros lost p b Hsim; destruct b; try discriminate.
+    - cbn [sim_sel] in Hsim.
+      apply andb_true_iff in Hsim as [Hsim Hsub]. apply andb_true_iff in Hsim as [Hsim Hargs].
+      apply andb_true_iff in Hsim as [Hal Hn]. apply name_eqb_eq in Hn. subst.
+      rewrite !bad_sel_field. f_equal.
+      + revert Hargs. apply all2_existsb. apply Forall_forall. intros [k1 a1] _ [k2 a2] Hk.
+        apply andb_true_iff in Hk as [Hk Hv]. apply name_eqb_eq in Hk. subst.
+        apply simv_resolve in Hv. rewrite (simc_hs _ _ _ Hv), (simc_leaky _ _ _ Hv). reflexivity.
+      + revert Hsub. apply all2_existsb. eapply Forall_impl; [|exact H]. intros x IH y Hxy. apply IH. exact Hxy.
+    - reflexivity.
+    - cbn [sim_sel] in Hsim. apply andb_true_iff in Hsim as [Hc Hsub].
+      apply option_name_eq in Hc. subst. rewrite !bad_sel_inline.
+      revert Hsub. apply all2_existsb. eapply Forall_impl; [|exact H]. intros x IH y Hxy. apply IH. exact Hxy.
+  Qed.
+
+  Lemma sim_bad_sels v1 v2 cl lost p l1 l2 :
+    all2 (sim_sel S v1 v2 p) l1 l2 = true ->
+    existsb (bad_sel S v1 cl lost p) l1 = existsb (bad_sel S v2 cl lost p) l2.
+  Proof.
+    apply all2_existsb. apply Forall_forall. intros x _ y H. apply sim_bad_sel. exact H.
+  Qed.
+
+  Lemma sim_bad_doc d1 v1 d2 v2 cl :
+    sim_doc S d1 v1 d2 v2 = true -> bad_doc S v1 cl d1 = bad_doc S v2 cl d2.
+  Proof.
+    unfold sim_doc. intros H. apply andb_true_iff in H as [Hf Ho]. unfold bad_doc. f_equal.
+    - revert Hf. apply all2_existsb. apply Forall_forall. intros a _ b Hab.
+      unfold sim_frag in Hab. apply andb_true_iff in Hab as [Hab Hs]. apply andb_true_iff in Hab as [Hn Hc].
+      apply name_eqb_eq in Hc. rewrite <- Hc. apply sim_bad_sels. exact Hs.
+    - revert Ho. apply all2_existsb. apply Forall_forall. intros a _ b Hab.
+      unfold sim_op in Hab. apply andb_true_iff in Hab as [Hab Hs]. apply andb_true_iff in Hab as [Hab Hv].
+      apply andb_true_iff in Hab as [Hn Ht]. apply optype_eqb_eq in Ht. rewrite <- Ht.
+      apply sim_bad_sels. exact Hs.
+  Qed.
+
+  Lemma sim_bad_default d1 v1 d2 v2 :
+    sim_doc S d1 v1 d2 v2 = true -> bad_default S d1 = bad_default S d2.
+  Proof.
+    unfold sim_doc. intros H. apply andb_true_iff in H as [_ Ho]. unfold bad_default.
+    revert Ho. apply all2_existsb. apply Forall_forall. intros a _ b Hab.
+    unfold sim_op in Hab. apply andb_true_iff in Hab as [Hab Hs]. apply andb_true_iff in Hab as [Hab Hv].
+    apply andb_true_iff in Hab as [Hn Ht]. apply option_name_eq in Hn. rewrite <- Hn.
+    destruct (op_name a); [|reflexivity].
+    revert Hv. apply all2_existsb. apply Forall_forall. intros x _ y Hxy.
+    unfold sim_vardef in Hxy. apply andb_true_iff in Hxy as [_ Hd]. unfold sim_default in Hd.
+    destruct (vd_default x), (vd_default y); try discriminate; [|reflexivity].
+    apply andb_true_iff in Hd as [He _]. apply Bool.eqb_prop in He. exact He.
+  Qed.
+
+  Theorem sim_known_class d1 v1 d2 v2 :
+    sim_doc S d1 v1 d2 v2 = true -> known_class S d1 v1 = known_class S d2 v2.
+  Proof.
+    intros H. unfold known_class.
+    rewrite (sim_bad_doc _ _ _ _ false H), (sim_bad_doc _ _ _ _ true H), (sim_bad_default _ _ _ _ H).
+    reflexivity.
+  Qed.
+End Invariance.
+
+Theorem c21_noninterference_strong nm fl S d1 v1 d2 v2 :
+  sim_doc S d1 v1 d2 v2 = true -> known_class S d1 v1 = 0%N ->
+  impl_doc nm fl S v1 d1 = impl_doc nm fl S v2 d2.
+Proof.
+  intros Hs K1. apply c21_noninterference; [exact Hs|exact K1|].
+  rewrite <- (sim_known_class S _ _ _ _ Hs). exact K1.
 Qed.
